@@ -29,7 +29,7 @@ REAL = ['smartquery.lexer', 'smartquery.ply.lex', 'smartquery.sq_parser', 'evalu
 STUB = ['host names mapping (recording dict subclass)']
 REACH_PROBES = ('percent_name', 'unicode_name', 'keyword_like_name', 'name_adjacent_to_string', 'comment_with_names',
                 'lexical_error_after_names', 'abandoned_generator', 'after_failed_parse', 'lookup_subset_checked',
-                'name_adjacent_to_number', 'fault_then_judged', 'same_text_again', 'unclosed_percent', 'deferred_result_consumed_later', 'inner_blank_names', 'older_listing_closed_midway')
+                'name_adjacent_to_number', 'fault_then_judged', 'same_text_again', 'unclosed_percent', 'deferred_result_consumed_later', 'inner_blank_names', 'older_listing_closed_midway', 'long_text')
 IMPLICIT = {'list', 'dict', '__getitem__', '__setitem__', '__delitem__', '__setitem_with_op__'}
 
 PLAIN = ['\u2126', '\u212bx', '\ufb01x', 'a', 'b2', '_x', 'x_1', 'if_', 'True_', 'not_in', 'in1', 'orx', 'andy', 'nota', 'delta', 'elsewhere', 'forx', 'r', 'rr',
@@ -164,6 +164,12 @@ def generate(seed, tier):
             k = 'soup'
         if k == 'soup':
             text, exp = _soup(ro, probes)
+            if ro.random() < 0.06:
+                # a text of well over a thousand characters / several hundred tokens (the lister reads long texts like short ones)
+                while len(text) < 1150:
+                    t2, e2 = _soup(ro, probes)
+                    text, exp = text + '\n' + t2, exp + e2
+                probes.add('long_text')
             op = {'op': 'list_names', 'src': text, 'expect': exp}
         elif k == 'prog_names':
             prog, env = _program(ro, probes)
